@@ -300,7 +300,7 @@ def main(pid, tier, seed, replay=None):
     else:
         cases, plan = gen_cases(tier, seed)
         cfg = ("SPECIFICATION Spec\nCONSTANTS\n  Kinds <- KindsMC\n  MaxRows = %d\n  Dev_NoWrapsEscapes = FALSE\nINVARIANT NeverFatal\n"
-               "INVARIANT SkipsExactly\nINVARIANT NoTracesIff\nCHECK_DEADLOCK FALSE\n") % (3 if tier == "quick" else 5)
+               "INVARIANT SkipsExactly\nINVARIANT NoTracesIff\nCHECK_DEADLOCK FALSE\n") % (3 if tier == "quick" else 4)
         mc = tlc.run_tlc("MTDecodeMC", cfg_text=cfg, workers=16, timeout=3600)
         tlc.check_ok(mc, "MTDecodeMC")
         if mc.invariant_violated:
